@@ -1143,3 +1143,168 @@ def r_popen_api(e, R):
     R.check({"join", "kill"} <= set(seen) or {"join", "terminate"} <= set(seen), "R-POPEN-API", "loky joins and kills/terminates its worker processes through the Process API",
             "loky", f"methods used: {sorted(seen)}", "no call of Process.join / kill found on worker processes (anchors lost)", None)
     R.floor("R-POPEN-API", 3)
+
+
+# ---------------------------------------------------------------------------
+# R-INIT-CHAIN (C18): the configured initializer keeps ITS initargs through the chaining helpers
+# ---------------------------------------------------------------------------
+
+def _ret_pairs(f):
+    return [r for r in func_nodes(f) if isinstance(r, ast.Return)]
+
+
+def r_init_chain(e, R):
+    """`initializer` and `initargs` reach the worker as a pair, but between the constructor and the spawn site they go through
+    loky.initializers, which may combine the user's initializer with one of its own (profiler propagation): the pair is split into
+    two parallel lists, filtered, and re-assembled, and the compound initializer zips them again in the worker.  "Every worker has
+    run the configured initializer WITH ITS initargs" needs every one of these steps to keep position i of one list paired with
+    position i of the other.  The steps are enumerated; a step that is present but pairs differently is a violation, a shape the rule
+    does not know is declined (ANALYSIS-ERROR)."""
+    a = e.anchors
+    cls = e.prog.classes[a.executor_cls]
+    init = cls.methods.get("__init__")
+    if init is None:
+        raise AnalysisError("executor has no __init__")
+    site = None
+    for n in func_nodes(init):
+        if isinstance(n, ast.Assign) and isinstance(n.targets[0], ast.Tuple) and len(n.targets[0].elts) == 2 and isinstance(n.value, ast.Call) \
+                and all(isinstance(t, ast.Attribute) and isinstance(t.value, ast.Name) and t.value.id == init.params[0] for t in n.targets[0].elts) \
+                and any(isinstance(x, ast.Name) and x.id == "initializer" for x in n.value.args):
+            site = n
+    if site is None:
+        raise AnalysisError("constructor: the (initializer, initargs) preparation call was not found")
+    fields = [t.attr for t in site.targets[0].elts]
+    args = [x.id if isinstance(x, ast.Name) else None for x in site.value.args]
+    R.check(args == ["initializer", "initargs"] and not site.value.keywords and "args" in fields[1] and "args" not in fields[0], "R-INIT-CHAIN",
+            "constructor: (self.<initializer>, self.<initargs>) = <prepare>(initializer, initargs), in this order", init.short, norm(site)[:80],
+            "the constructor hands the initializer and its arguments to the preparation helper (or stores its result) in the wrong order", e.loc(init, site))
+    prep = sorted(e.callees_of(site.value))
+    if len(prep) != 1:
+        raise AnalysisError("constructor: the preparation helper does not resolve to one function")
+    pf = e.prog.funcs[prep[0]]
+    # --- the preparation helper returns <chain>([(initializer, initargs), <provider>(), ...])
+    rets = _ret_pairs(pf)
+    if len(rets) != 1 or not isinstance(rets[0].value, ast.Call) or len(rets[0].value.args) != 1 or not isinstance(rets[0].value.args[0], (ast.List, ast.Tuple)):
+        raise AnalysisError(f"{pf.short}: does not return <chain>([pairs]); shape not known")
+    chain_call = rets[0].value
+    pairs = chain_call.args[0].elts
+    user = [p for p in pairs if isinstance(p, ast.Tuple)]
+    oku = len(user) == 1 and len(user[0].elts) == 2 and [norm(x) for x in user[0].elts] == list(pf.params[:2])
+    R.check(oku, "R-INIT-CHAIN", f"{pf.short}: the user's pair enters the chain once, as (initializer, initargs)", pf.short, norm(chain_call.args[0])[:90],
+            "the user's initializer does not enter the chain paired with its own initargs", e.loc(pf, chain_call))
+    n_prov = 0
+    for p in pairs:
+        if isinstance(p, ast.Tuple):
+            continue
+        if not isinstance(p, ast.Call):
+            raise AnalysisError(f"{pf.short}: chain element `{norm(p)[:40]}` is neither a pair nor a provider call")
+        for q in sorted(e.callees_of(p)):
+            g = e.prog.funcs[q]
+            for r in _ret_pairs(g):
+                v = r.value
+                if not (isinstance(v, ast.Tuple) and len(v.elts) == 2):
+                    raise AnalysisError(f"{g.short}: provider does not return a pair")
+                fn_, ar_ = v.elts
+                if isinstance(fn_, ast.Constant) and fn_.value is None:
+                    okp = isinstance(ar_, ast.Tuple) and not ar_.elts
+                    R.check(okp, "R-INIT-CHAIN", f"{g.short}: 'nothing to add' is (None, ())", g.short, norm(v)[:60], "the provider's empty answer is not (None, ())", e.loc(g, r))
+                    continue
+                n_prov += 1
+                tgt = [e.prog.funcs[c] for c in sorted(e.pt_funcs(g, fn_))] if hasattr(e, "pt_funcs") else \
+                    [f_ for q_, f_ in e.prog.funcs.items() if isinstance(fn_, ast.Name) and q_ == f"{g.module.name}:{fn_.id}"]
+                okp = isinstance(ar_, ast.Tuple) and all(not isinstance(x, ast.Starred) for x in ar_.elts)
+                if okp and tgt:
+                    t_ = tgt[0]
+                    npos = len(t_.params)
+                    ndef = len(t_.node.args.defaults)
+                    okp = npos - ndef <= len(ar_.elts) <= npos or t_.vararg is not None
+                R.check(okp, "R-INIT-CHAIN", f"{g.short}: returns (<initializer>, <tuple of its positional arguments>) of matching arity", g.short, norm(v)[:70],
+                        "the provider's argument part is not a tuple matching its initializer's parameters: the compound initializer calls initializer(*args) "
+                        "with the wrong arguments in every worker", e.loc(g, r))
+    chn = sorted(e.callees_of(chain_call))
+    if len(chn) != 1:
+        raise AnalysisError(f"{pf.short}: the chain helper does not resolve to one function")
+    cf = e.prog.funcs[chn[0]]
+    # --- the chain helper: one loop unpacking (i, a); parallel appends under the same guard; index-consistent returns
+    loops = [n for n in func_nodes(cf) if isinstance(n, ast.For) and isinstance(n.iter, ast.Name) and n.iter.id == cf.params[0]
+             and isinstance(n.target, ast.Tuple) and len(n.target.elts) == 2 and all(isinstance(x, ast.Name) for x in n.target.elts)]
+    if len(loops) != 1:
+        raise AnalysisError(f"{cf.short}: the loop unpacking the pairs was not found; shape not known")
+    iv, av = (x.id for x in loops[0].target.elts)
+
+    def appends(body):
+        out = []
+        for s in body:
+            if isinstance(s, ast.Expr) and isinstance(s.value, ast.Call) and isinstance(s.value.func, ast.Attribute) and s.value.func.attr == "append" \
+                    and isinstance(s.value.func.value, ast.Name) and len(s.value.args) == 1 and isinstance(s.value.args[0], ast.Name):
+                out.append((s.value.func.value.id, s.value.args[0].id, s))
+        return out
+    blocks = []
+    for n in ast.walk(loops[0]):
+        for fld in ("body", "orelse"):
+            b = getattr(n, fld, None)
+            if isinstance(b, list) and b and isinstance(b[0], ast.stmt):
+                ap = appends(b)
+                if ap:
+                    blocks.append((n, ap))
+    li = {l for _, ap in blocks for l, v, _ in ap if v == iv}
+    la = {l for _, ap in blocks for l, v, _ in ap if v == av}
+    if len(li) != 1 or len(la) != 1 or li == la:
+        raise AnalysisError(f"{cf.short}: the two parallel lists were not found; shape not known")
+    LI, LA = li.pop(), la.pop()
+    for n, ap in blocks:
+        ni = sum(1 for l, v, _ in ap if (l, v) == (LI, iv))
+        na = sum(1 for l, v, _ in ap if (l, v) == (LA, av))
+        R.check(ni == na, "R-INIT-CHAIN", f"{cf.short}: an initializer and its initargs are kept or dropped together (same block, same guard)", cf.short,
+                "; ".join(norm(s)[:40] for _, _, s in ap), "an initializer is kept without its initargs (or the reverse): the two lists shift against each other "
+                "and the compound initializer calls each initializer with another one's arguments", e.loc(cf, ap[0][2]))
+    for n in ast.walk(loops[0]):
+        if isinstance(n, ast.If):
+            names = {x.id for x in ast.walk(n.test) if isinstance(x, ast.Name)}
+            R.check(av not in names, "R-INIT-CHAIN", f"{cf.short}: the filter looks at the initializer only", cf.short, norm(n.test)[:60],
+                    "the filter depends on the initargs: an initializer with empty arguments is dropped or mis-paired", e.loc(cf, n))
+    n_ret = 0
+    for r in _ret_pairs(cf):
+        v = r.value
+        if not (isinstance(v, ast.Tuple) and len(v.elts) == 2):
+            raise AnalysisError(f"{cf.short}: returns something else than a pair; shape not known")
+        x, y = v.elts
+        n_ret += 1
+        if isinstance(x, ast.Constant) and x.value is None:
+            R.check(isinstance(y, ast.Tuple) and not y.elts, "R-INIT-CHAIN", f"{cf.short}: no initializer -> (None, ())", cf.short, norm(v)[:50],
+                    "with no initializer configured the initargs are not ()", e.loc(cf, r))
+        elif isinstance(x, ast.Subscript) and isinstance(y, ast.Subscript):
+            R.check(norm(x.value) == LI and norm(y.value) == LA and norm(x.slice) == norm(y.slice) and not isinstance(x.slice, ast.Slice), "R-INIT-CHAIN",
+                    f"{cf.short}: a single initializer is returned with the initargs at the same index", cf.short, norm(v)[:70],
+                    "the single remaining initializer is returned with other arguments than its own", e.loc(cf, r))
+        elif isinstance(x, ast.Call) and len(x.args) == 1:
+            comp = [e.prog.classes[c] for c in e.prog.classes if c.split(":")[-1] == norm(x.func)]
+            R.check(norm(x.args[0]) == LI and norm(y) == LA, "R-INIT-CHAIN", f"{cf.short}: several -> (<compound>(initializers), initargs lists), whole and in order", cf.short,
+                    norm(v)[:70], "the compound initializer is built from / shipped with a different sequence than the filtered pair of lists", e.loc(cf, r))
+            if len(comp) != 1:
+                raise AnalysisError(f"{cf.short}: the compound initializer class was not found")
+            cc = comp[0]
+            ci, call = cc.methods.get("__init__"), cc.methods.get("__call__")
+            if ci is None or call is None or not call.vararg:
+                raise AnalysisError(f"{cc.short if hasattr(cc, 'short') else 'compound'}: __init__/__call__(*args) not found; shape not known")
+            stored = [n.targets[0].attr for n in func_nodes(ci) if isinstance(n, ast.Assign) and isinstance(n.targets[0], ast.Attribute)
+                      and isinstance(n.value, ast.Name) and n.value.id == ci.params[1]]
+            zl = [n for n in func_nodes(call) if isinstance(n, ast.For) and isinstance(n.iter, ast.Call) and norm(n.iter.func) == "zip"]
+            if len(zl) != 1 or len(stored) != 1:
+                raise AnalysisError("compound initializer: zip loop / stored list not found; shape not known")
+            z = zl[0]
+            okz = len(z.iter.args) == 2 and norm(z.iter.args[0]) == f"{call.params[0]}.{stored[0]}" and norm(z.iter.args[1]) == call.vararg \
+                and isinstance(z.target, ast.Tuple) and len(z.target.elts) == 2
+            R.check(okz, "R-INIT-CHAIN", "compound initializer: zip(self.<initializers>, chained_args) -- position i with position i", call.short, norm(z.iter)[:60],
+                    "the compound initializer does not walk its initializers and the shipped argument lists in step", e.loc(call, z))
+            if okz:
+                fi, ai = (norm(t) for t in z.target.elts)
+                cs = [c for c in ast.walk(z) if isinstance(c, ast.Call) and norm(c.func) == fi]
+                okc = len(cs) == 1 and len(cs[0].args) == 1 and isinstance(cs[0].args[0], ast.Starred) and norm(cs[0].args[0].value) == ai and not cs[0].keywords \
+                    and not any(isinstance(n, (ast.Break, ast.Return, ast.Try, ast.If)) for n in ast.walk(z))
+                R.check(okc, "R-INIT-CHAIN", "compound initializer: every initializer is called once with *its args, none skipped, errors not swallowed", call.short,
+                        norm(z.body[0])[:60] if z.body else "", "the compound initializer skips an initializer, passes other arguments or hides its failure", e.loc(call, z))
+        else:
+            raise AnalysisError(f"{cf.short}: return `{norm(v)[:50]}` has a shape this rule does not know")
+    if n_ret < 3 or n_prov < 1:
+        raise AnalysisError(f"R-INIT-CHAIN floors: {n_ret} returns of the chain helper (3 confirmed), {n_prov} provider answers (1 confirmed)")
